@@ -18,6 +18,7 @@ pub fn all() -> Vec<(&'static str, fn())> {
         ("c01_fail_with_u64_error_code", c01_fail_with_u64_error_code),
         ("c01_nested_fold_next_outer_inside_inner", c01_nested_fold_next_outer_inside_inner),
         ("c01_fold_next_orders", c01_fold_next_orders),
+        ("c03_non_json_service_result_is_signed", c03_non_json_service_result_is_signed),
     ]
 }
 
@@ -355,4 +356,33 @@ fn c01_fold_next_orders() {
         print!("{s}\n   ");
         report(&o);
     }
+}
+
+fn keyed_params(seed: u8) -> (RunParameters, String) {
+    let kp = fluence_keypair::KeyPair::from_secret_key([seed; 32].to_vec(), fluence_keypair::KeyFormat::Ed25519).unwrap();
+    let peer_id = kp.get_peer_id().to_string();
+    let mut p = params(&peer_id);
+    p.key_format = kp.key_format().into();
+    p.secret_key_bytes = kp.secret().unwrap();
+    (p, peer_id)
+}
+
+/// (build with --features signatures) Candidate from reading: try_to_service_result records Failed(cid) for a
+/// host result that is not JSON, but (unlike handle_service_error) does not register the CID with the
+/// peer's CID tracker, so the peer's signature does not cover a result it recorded.
+fn c03_non_json_service_result_is_signed() {
+    let (pa, a) = keyed_params(1);
+    let (pb, _b) = keyed_params(2);
+    let air = format!(r#"(xor (call "{a}" ("s" "f") [] x) (null))"#);
+    let o1 = air::execute_air(air.clone(), vec![], vec![], pa.clone(), no_call_results());
+    report(&o1);
+    let mut m = CallResults::new();
+    m.insert("1".to_string(), CallServiceResult { ret_code: 0, result: "{not json".to_string() });
+    let o2 = air::execute_air(air.clone(), o1.data.clone(), vec![], pa.clone(), CallResultsRepr.serialize(&m).unwrap());
+    report(&o2);
+    println!("A trace {:?}", trace_of(&o2));
+    // another honest peer receives A's data
+    let o3 = air::execute_air(air.clone(), vec![], o2.data.clone(), pb, no_call_results());
+    report(&o3);
+    assert!(o3.ret_code == 0, "C03: data produced by an honest peer was rejected by another peer: {} {}", o3.ret_code, o3.error_message);
 }
